@@ -193,6 +193,21 @@ enum("Evattr", (), {"f": (), "attr": "#[bfield_codec(ignore)] "}, {"f": (U32,), 
 enum("Enest", (d("N2sd"),), (vec(d("T3")),), (box(d("Emix")), d("U0")))
 enum("EstatN", (d("Eeq"),), (U8, U16, U8), (d("N3s"),))
 enum("Egen", (d("G1", U32),), (d("GE", vec(U8)), d("G2", U8, BFE)))
+# three and more statically sized variants of UNEQUAL widths whose mean / first / last / neighbours coincide: any
+# shortcut for "all widths equal" (sum == n * first, first == last, pairwise-adjacent on a prefix, xor, min/max of a
+# subset) answers Some(_) on one of these, where the layout says None
+enum("Emean3", (U32,), (), (U32, U32))                        # widths 1, 0, 2
+enum("Emean3b", (U64,), (), (U64, U64))                       # widths 2, 0, 4
+enum("Emean3c", (U8, U8), (U8, U8, U8), (U8,))                # widths 2, 3, 1
+enum("Emean4", (U8,), (BFE,), (), (U64,))                     # widths 1, 1, 0, 2
+enum("Emean6", (BFE, BFE), (BFE,), (XFE,), (U64,), (XFE,), (U8,))   # widths 2, 1, 3, 2, 3, 1
+enum("Elast", (U32,), (U64,), (U32,))                         # widths 1, 2, 1: first == last
+enum("Efirst2", (U32,), (BFE,), (U64,))                       # widths 1, 1, 2: only the last differs
+enum("Exor", (U32,), (U64,), (U64,), (U32,), (U32,))          # widths 1, 2, 2, 1, 1
+enum("Emid", (U64,), (U64,), (DIGEST,), (U64,), (U64,))       # widths 2, 2, 5, 2, 2: only the middle differs
+enum("EmeanN", (d("N3s"),), (), (d("N3s"), d("N3s")))         # widths 3, 0, 6 through a derived struct
+named("NestMean", d("Emean3"), vec(d("Emean3b")), arr(2, d("Emean4")))
+tuple_("NestMean2", opt(d("Emean3c")), tup(d("Elast"), d("Efirst2")), vec(d("EmeanN")))
 named("NestEnum", d("Emix"), vec(d("Eeq")), opt(d("E3u")))
 tuple_("NestEnum2", arr(2, d("Euneq")), tup(d("Edisc"), d("Edyn")))
 
@@ -226,7 +241,9 @@ inst(d("GE2", U8, U8)), inst(d("GE2", U64, vec(BFE)))
 # compositions with a derived type at the top
 for _t in (vec(d("N2sd")), vec(d("N2ss")), vec(d("U0")), opt(d("Emix")), opt(d("NI3")), tup(d("N1s"), d("Eeq")),
            tup(d("T1d"), d("Euneq"), d("U0")), arr(2, d("T2sd")), arr(3, d("Eeq")), box(d("N5")), vec(d("GE", U32)),
-           vec(vec(d("T2ds"))), opt(vec(d("NI1"))), vec(d("TIgn")), tup(vec(d("Edyn")), d("G1", U8))):
+           vec(vec(d("T2ds"))), opt(vec(d("NI1"))), vec(d("TIgn")), tup(vec(d("Edyn")), d("G1", U8)),
+           vec(d("Emean3")), vec(d("Emean3b")), arr(3, d("Emean4")), tup(d("Emean6"), d("Exor")), vec(vec(d("Emid"))),
+           opt(d("Elast")), vec(d("GE", U32)), d("G1", d("Emean3"))):
     inst(_t)
 
 
